@@ -91,7 +91,8 @@ class _StatResult(object):
 class VRaw(io.RawIOBase):
     """raw file object on an inode; wrapped by the *real* io.Buffered* /
     TextIOWrapper so that buffering behaves exactly as in production"""
-    def __init__(self, proc, path, inode, readable, writable, append=False):
+    def __init__(self, proc, path, inode, readable, writable, append=False,
+                 fd=None):
         super(VRaw, self).__init__()
         self._proc = proc
         self._path = path
@@ -99,7 +100,7 @@ class VRaw(io.RawIOBase):
         self._r = readable
         self._w = writable
         self._pos = len(inode.data) if append else 0
-        self._fd = None
+        self._fd = fd
         self.name = path
         self.mode = "rb+" if (readable and writable) else (
             "wb" if writable else "rb")
@@ -187,6 +188,7 @@ class Patcher(object):
     def __init__(self):
         self.orig = {}
         self.fs = None
+        self.fds = {}
 
     # --- helpers -----------------------------------------------------------
     def _served(self, path):
@@ -214,6 +216,11 @@ class Patcher(object):
         o["getpid"] = os.getpid
         o["getppid"] = os.getppid
         o["os_open"] = os.open
+        o["os_close"] = os.close
+        import _io
+        import tempfile
+        o["_io_open"] = _io.open
+        o["candidate_names"] = tempfile._get_candidate_names
         o["fsync"] = os.fsync
         o["fdatasync"] = os.fdatasync
         o["home"] = pathlib.Path.__dict__["home"]
@@ -225,12 +232,75 @@ class Patcher(object):
 
         def v_open(file, mode="r", buffering=-1, encoding=None, errors=None,
                    newline=None, closefd=True, opener=None):
+            if isinstance(file, int) and file >= VFD_BASE and \
+                    file in P.fds:
+                proc, vp, inode = P.fds[file]
+                return P._wrap(VRaw(proc, vp, inode, "r" in mode or "+" in
+                                    mode, "w" in mode or "+" in mode or "a"
+                                    in mode, fd=file), "b" in mode, buffering,
+                               encoding, errors, newline)
             proc, vp = P._served(file)
             if proc is None:
                 return o["open"](file, mode, buffering, encoding, errors,
                                  newline, closefd, opener)
+            if opener is not None:
+                # e.g. tempfile.NamedTemporaryFile: the opener creates the
+                # file (through the substituted os.open) and returns its fd
+                fd = opener(file, os.O_RDWR)
+                return v_open(fd, mode, buffering, encoding, errors, newline)
             return P._open(proc, vp, mode, buffering, encoding, errors,
                            newline)
+
+        def v_os_open(path, flags, mode=0o777, *a, **kw):
+            proc, vp = P._served(path)
+            if proc is None:
+                return o["os_open"](path, flags, mode, *a, **kw)
+            if proc.dead:
+                raise FileNotFoundError(errno.ENOENT, "dead", vp)
+            proc.point(("os_open", vp, flags & (os.O_CREAT | os.O_EXCL |
+                                                os.O_TRUNC)))
+            fs = P.fs
+            if vp in fs.dirs:
+                raise IsADirectoryError(errno.EISDIR, "Is a directory", vp)
+            if vp in fs.files:
+                if flags & os.O_CREAT and flags & os.O_EXCL:
+                    proc.observe(("os_open", vp, "EEXIST"))
+                    raise FileExistsError(errno.EEXIST, "File exists", vp)
+                if flags & os.O_TRUNC:
+                    del fs.files[vp].data[:]
+            else:
+                if not flags & os.O_CREAT:
+                    proc.observe(("os_open", vp, "ENOENT"))
+                    raise FileNotFoundError(errno.ENOENT, "No such file", vp)
+                if os.path.dirname(vp) not in fs.dirs:
+                    raise FileNotFoundError(errno.ENOENT, "No such directory",
+                                            vp)
+                fs.files[vp] = Inode()
+            n = getattr(proc, "fd_counter", 0) + 1
+            proc.fd_counter = n
+            fd = VFD_BASE + proc.pid * 1000 + n
+            P.fds[fd] = (proc, vp, fs.files[vp])
+            proc.observe(("os_open", vp, "ok"))
+            return fd
+
+        def v_os_close(fd):
+            if isinstance(fd, int) and fd >= VFD_BASE:
+                P.fds.pop(fd, None)
+                return
+            return o["os_close"](fd)
+
+        def v_candidate_names():
+            proc = current()
+            if proc is None:
+                return o["candidate_names"]()
+            # deterministic per virtual process (the real sequence is random)
+            def gen():
+                k = getattr(proc, "tmp_counter", 0)
+                while True:
+                    k += 1
+                    proc.tmp_counter = k
+                    yield "vtmp%d_%d" % (proc.pid, k)
+            return gen()
 
         def v_stat(path, *a, **kw):
             proc, vp = P._served(path)
@@ -430,6 +500,10 @@ class Patcher(object):
 
         builtins.open = v_open
         io.open = v_open
+        _io.open = v_open
+        os.open = v_os_open
+        os.close = v_os_close
+        tempfile._get_candidate_names = v_candidate_names
         os.stat = v_stat
         os.lstat = v_lstat
         os.mkdir = v_mkdir
@@ -445,13 +519,18 @@ class Patcher(object):
         pathlib.Path.home = classmethod(v_home)
         os.listdir = v_listdir
         os.scandir = v_scandir
-        for name in ("rmdir", "makedirs", "os_open"):
-            setattr(os, name.replace("os_", ""), unsupported(name))
+        for name in ("rmdir", "makedirs"):
+            setattr(os, name, unsupported(name))
 
     def uninstall(self):
         o = self.orig
+        import _io
+        import tempfile
         builtins.open = o["open"]
         io.open = o["io_open"]
+        _io.open = o["_io_open"]
+        os.close = o["os_close"]
+        tempfile._get_candidate_names = o["candidate_names"]
         os.stat = o["stat"]
         os.lstat = o["lstat"]
         os.mkdir = o["mkdir"]
@@ -508,6 +587,9 @@ class Patcher(object):
             raw = VRaw(proc, vp, fs.files[vp], "+" in m, True, append=True)
         else:
             raise HarnessError("open mode %r is not modelled" % mode)
+        return self._wrap(raw, binary, buffering, encoding, errors, newline)
+
+    def _wrap(self, raw, binary, buffering, encoding, errors, newline):
         if buffering == 0:
             if not binary:
                 raise ValueError("can't have unbuffered text I/O")
